@@ -60,7 +60,7 @@ func TestCheck(t *testing.T) {
 	oldProcs := runtime.GOMAXPROCS(0)
 	defer runtime.GOMAXPROCS(oldProcs)
 
-	perShard := int64(cfg.Pick(6000, 16*8000)) / int64(cfg.Shards)
+	perShard := int64(cfg.Pick(6000, 16*24000)) / int64(cfg.Shards)
 	if perShard < 1 {
 		perShard = 1
 	}
